@@ -22,7 +22,7 @@ def _roles(ctx, comp, ex):
                 level = h.lhs
                 upd = h
     if level is None:
-        raise AnalysisError("C15", comp.site, "WideFifo: occupancy register not found (no x <- x + a - b update)")
+        raise AnalysisError("C15", comp.site, "WideFifo: occupancy register not found (no x <- x + a - b update)", missing="WideFifo: occupancy register not found (no x <- x + a - b update)")
     co, k = to_lin(upd.rhs)
     wc = [a for a, v in co.items() if v == 1 and a != level]
     rc = [a for a, v in co.items() if v == -1]
